@@ -46,6 +46,7 @@ type write struct {
 	pos  token.Pos
 	what string
 	src  types.Object // the source (global or parameter) the written memory derives from
+	lhs  ast.Expr     // the assigned expression for plain stores (nil for append/copy/calls)
 }
 
 type analysis struct {
@@ -384,22 +385,22 @@ func (a *analysis) writes(u *unit, isSource func(types.Object) bool, rebinding b
 		if isPkgVar(root) {
 			if _, plain := ast.Unparen(l).(*ast.Ident); plain || isQualified(info, l) {
 				if rebinding {
-					out = append(out, write{pos, "assignment to package variable " + root.Name(), s})
+					out = append(out, write{pos, "assignment to package variable " + root.Name(), s, l})
 				}
 				return
 			}
-			out = append(out, write{pos, "store into package variable " + root.Name() + " (" + types.ExprString(l) + ")", s})
+			out = append(out, write{pos, "store into package variable " + root.Name() + " (" + types.ExprString(l) + ")", s, l})
 			return
 		}
 		if deref {
-			out = append(out, write{pos, "store through " + types.ExprString(l), s})
+			out = append(out, write{pos, "store through " + types.ExprString(l), s, l})
 		}
 	}
 	argWrite := func(arg ast.Expr, pos token.Pos, what string) {
 		root, _ := base(info, arg)
 		if s := srcOfRoot(root); s != nil {
 			if tv, ok := info.Types[arg]; ok && (refKind(tv.Type) || isAddr(arg)) {
-				out = append(out, write{pos, what, s})
+				out = append(out, write{pos, what, s, nil})
 			}
 		}
 	}
@@ -478,7 +479,7 @@ func (a *analysis) writes(u *unit, isSource func(types.Object) bool, rebinding b
 				if _, isPtr := sig.Recv().Type().(*types.Pointer); isPtr {
 					root, _ := base(info, recvExpr)
 					if src := srcOfRoot(root); src != nil {
-						out = append(out, write{s.Pos(), "pointer-receiver method " + id + " applied to " + types.ExprString(recvExpr), src})
+						out = append(out, write{s.Pos(), "pointer-receiver method " + id + " applied to " + types.ExprString(recvExpr), src, nil})
 					}
 				}
 			}
@@ -509,7 +510,7 @@ func argWrite2(info *types.Info, srcOfRoot func(types.Object) types.Object, out 
 		return
 	}
 	if refKind(tv.Type) || isAddr(arg) || (recv && isPkgVar(root)) {
-		*out = append(*out, write{pos, what, s})
+		*out = append(*out, write{pos, what, s, nil})
 	}
 }
 
@@ -596,5 +597,50 @@ func Stateless(p *core.Prog, r *core.Report) {
 			seen[k] = true
 			r.Bad("STATELESS", k, p.Pos(w.pos), fmt.Sprintf("%s writes package-level memory (variable %s): %s; a later call can observe an earlier one", key, w.src.Name(), w.what))
 		}
+	}
+}
+
+// ShallowCache decides SHALLOW-CACHE on (*seqio.Origin).Bytes, the one reviewed
+// mutator among the accessors (it replaces the formatted block by the decoded
+// residues the first time it is asked): the method may rebind the fields of
+// its receiver, but it may not store into the memory those fields reference.
+// The formatted block is shared - with the parser's buffer (and so with the
+// caller's bytes under pars.FromBytes) and with every value copy of the
+// Origin - so decoding "in place" corrupts what the other holders read.
+func ShallowCache(p *core.Prog, r *core.Report) {
+	r.Rule("SHALLOW-CACHE", "(*seqio.Origin).Bytes writes through its receiver only by assigning whole fields (`o.Buffer = q`, `o.Parsed = true`); it never stores, copies or appends into memory reachable from the receiver (the old block's backing array, which the parser's buffer and value copies of the Origin share)", 1)
+	a := &analysis{p: p}
+	a.collect(core.PkgGts, core.PkgSeqio)
+	a.solve()
+	var u *unit
+	for _, x := range a.units {
+		if x.pkg == core.PkgSeqio && x.name == "Origin.Bytes" {
+			u = x
+		}
+	}
+	key := "seqio.Origin.Bytes"
+	if u == nil || len(u.params) == 0 || u.params[0] == nil {
+		r.Und("SHALLOW-CACHE", key+"|anchor", "-", "anchor-unresolved")
+		return
+	}
+	r.Fn(key)
+	recv := u.params[0]
+	info := p.Info(u.pkg)
+	ws := a.writes(u, func(o types.Object) bool { return o == recv }, false)
+	bad := false
+	for _, w := range ws {
+		if w.lhs != nil {
+			if se, ok := ast.Unparen(w.lhs).(*ast.SelectorExpr); ok && info.Selections[se] != nil {
+				if id, ok := ast.Unparen(se.X).(*ast.Ident); ok && info.Uses[id] == recv {
+					continue // whole-field assignment
+				}
+			}
+		}
+		bad = true
+		r.Bad("SHALLOW-CACHE", key, p.Pos(w.pos), "Origin.Bytes stores into memory the receiver merely references ("+w.what+"): the formatted block is shared with the parser's buffer and with value copies of the Origin, which now read a half-decoded block")
+		break
+	}
+	if !bad {
+		r.Ok("SHALLOW-CACHE", key, p.Pos(u.pos), fmt.Sprintf("%d store(s) through the receiver, all whole-field assignments", len(ws)))
 	}
 }
